@@ -408,7 +408,7 @@ impl Heap {
         let mut r = Rng::for_case(ctx.seed, 300 + f as u64, i);
         match name {
             "directed" => (name, directed()[i as usize].1.to_string()),
-            "one-machine-many-compilers" => (name, machine_programs(&mut r).join("\n//---- next program, fresh compiler\n")),
+            "one-machine-many-compilers" => (name, machine_programs(&mut r, ctx.flavour != Flavour::Miri).join("\n//---- next program, fresh compiler\n")),
             "long-runs" => (name, long_run((i as usize) % LONG_RUNS, [400_000, 1_200_000, 3_000_000][(i as usize) / LONG_RUNS]).0),
             "scale" => (name, crate::scale::heap_programs(ctx.flavour == Flavour::Rel && ctx.tier == Tier::Thorough)[i as usize].1.clone()),
             "valgrind" => {
@@ -532,11 +532,13 @@ impl Heap {
 }
 
 /// two to five allocating programs, each ending in an immediate value (nobody owns a result), for one machine
-fn machine_programs(r: &mut Rng) -> Vec<String> {
+fn machine_programs(r: &mut Rng, use_reference: bool) -> Vec<String> {
     let k = 2 + r.below(4);
     (0..k)
         .map(|j| {
-            if r.chance(1, 4) {
+            // (the reference interpreter, which filters the generated programs, leaks reference cycles of its own: not under
+            //  Miri's leak check)
+            if r.chance(1, 4) || !use_reference {
                 // short and full of heap constants
                 let n = 1 + r.below(6);
                 let mut t = String::new();
@@ -749,7 +751,7 @@ impl Check for Heap {
                 }
             }
             "one-machine-many-compilers" => {
-                let programs = machine_programs(&mut r);
+                let programs = machine_programs(&mut r, ctx.flavour != Flavour::Miri);
                 let text = programs.join("\n//---- next program, fresh compiler\n");
                 st.distinct_hash(hash_str(&text));
                 st.add("one-machine:programs", programs.len() as u64);
